@@ -33,14 +33,22 @@ func Harness_C02_sortfile() {
 		}
 	}
 	pk := []string{[]string{"a", "b"}[keyCol]}
+	// delim=1: the second run reads the same table from a file that uses ';' as delimiter
+	csv2 := bytes.ReplaceAll(csv, []byte(","), []byte(";"))
 	run := func(name string) [][]string {
 		rs := zzverif.Uint64(name)
 		zzverif.Assume(rs >= 1)
-		s, err := NewSorter(WithRunSize(rs))
+		opts := []SorterOption{WithRunSize(rs)}
+		text := csv
+		if name == "runSize2" && zzverif.Param("delim", 0) == 1 {
+			opts = append(opts, WithDelimiter(';'))
+			text = csv2
+		}
+		s, err := NewSorter(opts...)
 		if err != nil {
 			panic(err)
 		}
-		err = s.SortFile(io.NopCloser(bytes.NewReader(csv)), pk)
+		err = s.SortFile(io.NopCloser(bytes.NewReader(text)), pk)
 		zzverif.Assert("csv-accepted", err == nil)
 		if err != nil {
 			return nil
